@@ -83,12 +83,12 @@ impl Sess {
         let budget = 8 * (n as u64) * (n as u64) + 64;
         let xd0 = run::digest(x);
         let yd0 = run::digest(y);
-        let (o, r) = run::call_guarded(x, y, run::op_of(op), px, py, budget, 20);
+        // equal operands: every other such call hands over ONE object as both operands (a.op(&a))
+        let alias = std::ptr::eq(x, y);
+        let (o, r, xd1, yd1) = run::call_guarded_alias(x, y, alias, run::op_of(op), px, py, budget, 20);
         if o.outcome == "timeout" {
             HUNG.store(true, std::sync::atomic::Ordering::SeqCst);
         }
-        let xd1 = run::digest(x);
-        let yd1 = run::digest(y);
         let s = r.as_ref().map(|m| run::snap(m, k, mag));
         (o, r, s, [xd0, xd1, yd0, yd1])
     }
@@ -133,13 +133,17 @@ impl Sess {
         // the deviation figure is relative to the magnitude of THIS call's operands (never to
         // session state, so that equal calls are recorded equally wherever they occur)
         let mag = vx.mag.max(vy.mag);
+        // A op A: alternately as two equal objects and as one object passed twice
+        let same_obj = x == y && self.nres % 2 == 0;
         if f32_ {
-            let (o, r, s, d) = Self::call_t::<f32>(vx.g32.as_ref().expect("f32 value"), vy.g32.as_ref().expect("f32 value"), vx.k, mag, n, op, px, py);
+            let gx = vx.g32.as_ref().expect("f32 value");
+            let (o, r, s, d) = Self::call_t::<f32>(gx, if same_obj { gx } else { vy.g32.as_ref().expect("f32 value") }, vx.k, mag, n, op, px, py);
             self.events.push(Self::call_event(&res, op, x, y, px, py, "f32", 0, &o, &s, &d));
             let (ne, np) = s.as_ref().map(|s| (gen::n_edges(&run::snapped_to_imp(s)), s.polys.len())).unwrap_or((0, 0));
             self.vals.insert(res.clone(), Val { k: vx.k, g64: None, g32: r, n_edges: ne, n_polys: np, mag });
         } else {
-            let (o, r, s, d) = Self::call_t::<f64>(vx.g64.as_ref().expect("f64 value"), vy.g64.as_ref().expect("f64 value"), vx.k, mag, n, op, px, py);
+            let gx = vx.g64.as_ref().expect("f64 value");
+            let (o, r, s, d) = Self::call_t::<f64>(gx, if same_obj { gx } else { vy.g64.as_ref().expect("f64 value") }, vx.k, mag, n, op, px, py);
             self.events.push(Self::call_event(&res, op, x, y, px, py, "f64", 0, &o, &s, &d));
             let (ne, np) = s.as_ref().map(|s| (gen::n_edges(&run::snapped_to_imp(s)), s.polys.len())).unwrap_or((0, 0));
             self.vals.insert(res.clone(), Val { k: vx.k, g64: r, g32: None, n_edges: ne, n_polys: np, mag });
@@ -253,6 +257,16 @@ pub fn canon_pair(fam: &str, kmax: i64, rng: &mut Rng) -> (Vec<(Vec<P>, Vec<Vec<
         let y = v.pop().unwrap();
         return (v.pop().unwrap(), y);
     }
+    if fam == "lamina" {
+        let mut v = gen::lamina_set(rng, 2);
+        let y = v.pop().unwrap();
+        return (v.pop().unwrap(), y);
+    }
+    if fam == "onion" {
+        let mut v = gen::onion_set(rng, 2);
+        let y = v.pop().unwrap();
+        return (v.pop().unwrap(), y);
+    }
     if fam == "teeth" {
         let mut v = gen::teeth_set(rng, 2);
         let y = v.pop().unwrap();
@@ -317,6 +331,18 @@ pub fn canon_triple(fam: &str, kmax: i64, rng: &mut Rng) -> [Vec<(Vec<P>, Vec<Ve
     }
     if fam == "holefill" {
         let mut v = gen::holefill_set(rng, 3);
+        let c = v.pop().unwrap();
+        let b = v.pop().unwrap();
+        return [v.pop().unwrap(), b, c];
+    }
+    if fam == "lamina" {
+        let mut v = gen::lamina_set(rng, 3);
+        let c = v.pop().unwrap();
+        let b = v.pop().unwrap();
+        return [v.pop().unwrap(), b, c];
+    }
+    if fam == "onion" {
+        let mut v = gen::onion_set(rng, 3);
         let c = v.pop().unwrap();
         let b = v.pop().unwrap();
         return [v.pop().unwrap(), b, c];
@@ -701,6 +727,11 @@ pub fn sess_pure(sid: u64, fam: &str, seed: u64, o: &Opts) -> Sess {
     }
     for (op, _) in run::OPS {
         s.call(op, "A", "B", 'm', 'm', false); // repeated
+    }
+    // A op A twice: once as two equal objects, once as ONE object passed as both operands
+    for (op, _) in run::OPS {
+        s.call(op, "A", "A", 'm', 'm', false);
+        s.call(op, "A", "A", 'm', 'm', false);
     }
     // exactly translated copies (another binade): same relative geometry at another position
     let d = (*rng.pick(&[4096i64, 2048, 1024, -4096]), *rng.pick(&[4096i64, 2048, -2048, 512]));
